@@ -94,16 +94,17 @@ type replica struct {
 }
 
 type world struct {
-	r       *core.Run
-	dir     string
-	space   *simlib.Space
-	accs    []*simlib.Account // accs[0] = owner
-	treeId  string
-	root    *treechangeproto.RawTreeChangeWithId
-	reps    []*replica
-	msgs    []*message
-	streams []*stream
-	seq     int
+	probeAdds int // edits made while a probe streams its batches
+	r         *core.Run
+	dir       string
+	space     *simlib.Space
+	accs      []*simlib.Account // accs[0] = owner
+	treeId    string
+	root      *treechangeproto.RawTreeChangeWithId
+	reps      []*replica
+	msgs      []*message
+	streams   []*stream
+	seq       int
 	// ground truth of honest changes: id -> raw bytes, parents, snapshot base
 	created map[string][]byte
 	order   []string // creation order of honest changes
